@@ -64,6 +64,10 @@ def replay_file(path):
         ok, detail = mod.replay(rec)
         print(detail)
         return 1 if ok else 0
+    if rec['target_kind'] == 'lemma' and rec.get('inputs'):
+        r = native.replay_lemma(rec['target'], rec['inputs'])
+        print(json.dumps(r, indent=1, default=str))
+        return 1 if r['confirmed'] else 0
     if rec['target_kind'] == 'fn' and rec.get('inputs'):
         r = native.replay_function(rec['target'], rec['inputs'])
         print(json.dumps(r, indent=1, default=str))
@@ -112,6 +116,13 @@ def check(prop, tier, seed, t0):
     reg = contract.Registry()
     cs, ls = reg.for_property(prop)
     tasks = []
+    # the callees whose contracts the lemmas of this property use are verified in this check as well
+    import ast as _ast
+    for l in ls:
+        by_name = {c.fd.name: c for c in l.sidecar.contracts}
+        for n in _ast.walk(l.fd):
+            if isinstance(n, _ast.Call) and isinstance(n.func, _ast.Name) and n.func.id in by_name and by_name[n.func.id] not in cs:
+                cs.append(by_name[n.func.id])
     assumed_here = [c.target for c in cs if c.assumed]
     for c in cs:
         if c.assumed:
@@ -143,6 +154,11 @@ def check(prop, tier, seed, t0):
     samples = []
     functions, lemmas, inlined, used, lib_used = [], [], set(), set(), set()
     failing_ids = set()
+    # a lemma of this property is proved from callee contracts: every postcondition of those callees carries the property
+    lemma_deps = set()
+    for res in results:
+        if res.get('kind') == 'lemma' and res['status'] == 'ok':
+            lemma_deps |= set(res.get('used_contracts', []))
     for res in results:
         if res['status'] == 'error':
             crashed.append(res)
@@ -156,7 +172,7 @@ def check(prop, tier, seed, t0):
         used |= set(res.get('used_contracts', []))
         lib_used |= set(res.get('lib_used', []))
         facts |= set(res.get('trusted_facts', []))
-        mine = [o for o in res['obligations'] if prop in o['props']]
+        mine = [o for o in res['obligations'] if prop in o['props'] or (res['kind'] == 'fn' and res['name'] in lemma_deps and o['kind'] in ('post', 'exc'))]
         if not mine and res['kind'] != 'engine' and not res.get('shard'):
             undecided.append('%s %s generated no obligation for %s' % (res['kind'], res['name'], prop))
         for o in mine:
@@ -265,7 +281,7 @@ def check(prop, tier, seed, t0):
             print('note: known finding %s no longer reproduces natively (%s)' % (f['id'], shown[:120]))
     # baseline of obligation ids (vacuity / regression guard)
     base_path = os.path.join(HERE, 'baseline', '%s.json' % prop)
-    ids_now = sorted({o['id'] for res in results if res['status'] == 'ok' for o in res['obligations'] if prop in o['props']})
+    ids_now = sorted({o['id'] for res in results if res['status'] == 'ok' for o in res['obligations'] if prop in o['props'] or (res['kind'] == 'fn' and res['name'] in lemma_deps and o['kind'] in ('post', 'exc'))})
     if os.path.exists(base_path):
         base = json.load(open(base_path))
         missing = [i for i in base['ids'] if i not in ids_now]
@@ -302,6 +318,13 @@ def check(prop, tier, seed, t0):
                 confirmed = r['confirmed']
             except Exception as ex:
                 extra = dict(native=dict(confirmed=False, detail='replay crashed: %s' % ex))
+        elif res['kind'] == 'lemma' and o.get('model'):
+            try:
+                r = native.replay_lemma(res['name'], o['model'], reg)
+            except Exception as ex:
+                r = dict(confirmed=False, detail='lemma replay crashed: %s' % str(ex)[:200])
+            extra = dict(native=r)
+            confirmed = r['confirmed']
         elif res['kind'] == 'engine':
             extra = dict(engine=res.get('engine'), native=o.get('native'))
             confirmed = bool(o.get('native', {}).get('confirmed'))
